@@ -40,7 +40,8 @@ Inductive action :=
 | ALater (fl : bflags) (cb : Z)                  (* tickit_watch_later *)
 | AWatch (k : kind) (x : Z) (fl : bflags) (cb : Z) (* tickit_watch_io / _signal / _process *)
 | ACancel (id : Z)                               (* tickit_watch_cancel, if still live *)
-| ANop.
+| ANop
+| ADrop.                                         (* tickit_unref: the application drops its reference *)
 
 Inductive op :=
 | OAct (a : action)
@@ -57,32 +58,36 @@ Inductive obs := OPoll (msec : Z) | OEv (e : event).
 Record st := mkSt {
   timers : list watch; laters : list watch; ios : list watch; sigs : list watch;
   procs : list watch; run_timers : list watch; run_laters : list watch;
-  next_id : Z; now : Z; iter : Z; log : list obs (* newest first *) }.
+  next_id : Z; now : Z; iter : Z; log : list obs (* newest first *);
+  dropped : bool (* the application's reference is gone: the instance dies when the running tickit_tick returns *) }.
 
-Definition st0 : st := mkSt [] [] [] [] [] [] [] 0 0 0 [].
+Definition st0 : st := mkSt [] [] [] [] [] [] [] 0 0 0 [] false.
 
 Definition set_timers (s : st) (l : list watch) : st :=
-  mkSt l (laters s) (ios s) (sigs s) (procs s) (run_timers s) (run_laters s) (next_id s) (now s) (iter s) (log s).
+  mkSt l (laters s) (ios s) (sigs s) (procs s) (run_timers s) (run_laters s) (next_id s) (now s) (iter s) (log s) (dropped s).
 Definition set_laters (s : st) (l : list watch) : st :=
-  mkSt (timers s) l (ios s) (sigs s) (procs s) (run_timers s) (run_laters s) (next_id s) (now s) (iter s) (log s).
+  mkSt (timers s) l (ios s) (sigs s) (procs s) (run_timers s) (run_laters s) (next_id s) (now s) (iter s) (log s) (dropped s).
 Definition set_ios (s : st) (l : list watch) : st :=
-  mkSt (timers s) (laters s) l (sigs s) (procs s) (run_timers s) (run_laters s) (next_id s) (now s) (iter s) (log s).
+  mkSt (timers s) (laters s) l (sigs s) (procs s) (run_timers s) (run_laters s) (next_id s) (now s) (iter s) (log s) (dropped s).
 Definition set_sigs (s : st) (l : list watch) : st :=
-  mkSt (timers s) (laters s) (ios s) l (procs s) (run_timers s) (run_laters s) (next_id s) (now s) (iter s) (log s).
+  mkSt (timers s) (laters s) (ios s) l (procs s) (run_timers s) (run_laters s) (next_id s) (now s) (iter s) (log s) (dropped s).
 Definition set_procs (s : st) (l : list watch) : st :=
-  mkSt (timers s) (laters s) (ios s) (sigs s) l (run_timers s) (run_laters s) (next_id s) (now s) (iter s) (log s).
+  mkSt (timers s) (laters s) (ios s) (sigs s) l (run_timers s) (run_laters s) (next_id s) (now s) (iter s) (log s) (dropped s).
 Definition set_run_timers (s : st) (l : list watch) : st :=
-  mkSt (timers s) (laters s) (ios s) (sigs s) (procs s) l (run_laters s) (next_id s) (now s) (iter s) (log s).
+  mkSt (timers s) (laters s) (ios s) (sigs s) (procs s) l (run_laters s) (next_id s) (now s) (iter s) (log s) (dropped s).
 Definition set_run_laters (s : st) (l : list watch) : st :=
-  mkSt (timers s) (laters s) (ios s) (sigs s) (procs s) (run_timers s) l (next_id s) (now s) (iter s) (log s).
+  mkSt (timers s) (laters s) (ios s) (sigs s) (procs s) (run_timers s) l (next_id s) (now s) (iter s) (log s) (dropped s).
 Definition set_next (s : st) (n : Z) : st :=
-  mkSt (timers s) (laters s) (ios s) (sigs s) (procs s) (run_timers s) (run_laters s) n (now s) (iter s) (log s).
+  mkSt (timers s) (laters s) (ios s) (sigs s) (procs s) (run_timers s) (run_laters s) n (now s) (iter s) (log s) (dropped s).
 Definition set_now (s : st) (n : Z) : st :=
-  mkSt (timers s) (laters s) (ios s) (sigs s) (procs s) (run_timers s) (run_laters s) (next_id s) n (iter s) (log s).
+  mkSt (timers s) (laters s) (ios s) (sigs s) (procs s) (run_timers s) (run_laters s) (next_id s) n (iter s) (log s) (dropped s).
 Definition set_iter (s : st) (n : Z) : st :=
-  mkSt (timers s) (laters s) (ios s) (sigs s) (procs s) (run_timers s) (run_laters s) (next_id s) (now s) n (log s).
+  mkSt (timers s) (laters s) (ios s) (sigs s) (procs s) (run_timers s) (run_laters s) (next_id s) (now s) n (log s) (dropped s).
 Definition set_log (s : st) (l : list obs) : st :=
-  mkSt (timers s) (laters s) (ios s) (sigs s) (procs s) (run_timers s) (run_laters s) (next_id s) (now s) (iter s) l.
+  mkSt (timers s) (laters s) (ios s) (sigs s) (procs s) (run_timers s) (run_laters s) (next_id s) (now s) (iter s) l (dropped s).
+
+Definition set_dropped (s : st) (b : bool) : st :=
+  mkSt (timers s) (laters s) (ios s) (sigs s) (procs s) (run_timers s) (run_laters s) (next_id s) (now s) (iter s) (log s) b.
 
 (* a callback invocation as the harness sees it *)
 Definition emit (s : st) (w : watch) (flags : Z) : st :=
@@ -162,6 +167,7 @@ Definition do_reg (s : st) (a : action) : st :=
   | AWatch _ _ _ _ => s
   | ACancel _ => s
   | ANop => s
+  | ADrop => set_dropped s true
   end.
 
 Definition do_regs (s : st) (l : list action) : st := fold_left do_reg l s.
@@ -267,5 +273,28 @@ Definition run_ops (ops : list op) : st := fold_left do_op ops st0.
 
 (* the observation of a whole case: the script, then destruction *)
 Definition run (ops : list op) : list obs := rev (log (destroy (run_ops ops))).
+
+(* ... with tickit_unref from callbacks taken seriously: tickit_tick holds a reference while it
+   runs (fixes/C18-tick-holds-reference.patch), so the instance a callback has dropped is
+   destroyed when the tick returns -- with everything that tick owed done -- and the script
+   ends there; dropped between ticks it is destroyed at once.  The harness's iteration counter
+   is then not reset: [destroy_now] *)
+Definition destroy_now (s : st) : st :=
+  let s1 := destroy_list s (ios s) in
+  let s2 := destroy_list s1 (timers s) in
+  let s3 := destroy_list s2 (laters s) in
+  let s4 := destroy_list s3 (sigs s) in
+  let s5 := destroy_list s4 (procs s) in
+  set_procs (set_sigs (set_laters (set_timers (set_ios s5 []) []) []) []) [].
+
+Fixpoint run_opsx (ops : list op) (s : st) : st * bool :=
+  match ops with
+  | [] => (s, false)
+  | o :: r => let s' := do_op s o in if dropped s' then (s', true) else run_opsx r s'
+  end.
+
+Definition runx (ops : list op) : list obs :=
+  let (s, early) := run_opsx ops st0 in
+  rev (log (if early then destroy_now s else destroy s)).
 
 End WithEnv.
